@@ -6,6 +6,8 @@ import (
 	"go/token"
 	"go/types"
 	"strings"
+
+	"golang.org/x/tools/go/packages"
 )
 
 // rules written after the sixth round of independent seeding
@@ -759,7 +761,7 @@ func ruleS17(r *Run) {
 			key := fmt.Sprintf("body returned only for 200 in %s.Transport.Transport #%d", rel, k)
 			good := false
 			for _, f := range factsWithSwitch(parents, ret) {
-				if b, ok := ast.Unparen(f.e).(*ast.BinaryExpr); ok && b.Op == token.EQL && !f.neg {
+				if b, ok := ast.Unparen(f.e).(*ast.BinaryExpr); ok && ((b.Op == token.EQL && !f.neg) || (b.Op == token.NEQ && f.neg)) {
 					if (mentionsStatus(b.X) && isStatusOK(b.Y)) || (mentionsStatus(b.Y) && isStatusOK(b.X)) {
 						good = true
 					}
@@ -786,5 +788,469 @@ func ruleS17(r *Run) {
 	}
 	if n == 0 {
 		r.Undec("HTTP client transports", 0, "no return of a response body found in rpc/http(.fasthttp).Transport.Transport")
+	}
+}
+
+// ---------------------------------------------------------------------------------------------------
+// G55 a clause of a type switch that lists several types does not compare its variable with a constant
+
+func init() {
+	register("G55", "Go gives the variable of a type switch (`switch v := x.(type)`) the type of the CLAUSE only when the clause lists one type; in a clause that lists several (`case int, int64, uint8:`) v keeps the interface type of x, and `v != 0` compares an interface with the int constant 0 - true for int64(0), uint8(0), float64(0), every zero but int(0). No such clause in the repository compares the switch variable with a constant (== / !=): Dict.GetBool would read a not-idempotent mark stored as int64(0) as TRUE, and the cluster plugin would re-send the call", 0, ruleG55)
+}
+
+func ruleG55(r *Run) {
+	p := r.P
+	n := 0
+	p.EachFunc(func(pkg *packages.Package, fd *ast.FuncDecl) {
+		if fd.Body == nil {
+			return
+		}
+		info := pkg.TypesInfo
+		k := 0
+		ast.Inspect(fd.Body, func(m ast.Node) bool {
+			ts, ok := m.(*ast.TypeSwitchStmt)
+			if !ok {
+				return true
+			}
+			if _, bound := ts.Assign.(*ast.AssignStmt); !bound {
+				return true
+			}
+			for _, cs := range ts.Body.List {
+				cc := cs.(*ast.CaseClause)
+				if len(cc.List) < 2 {
+					continue
+				}
+				v := info.Implicits[cc]
+				if v == nil {
+					continue
+				}
+				if _, isIface := v.Type().Underlying().(*types.Interface); !isIface {
+					continue
+				}
+				n++
+				k++
+				key := fmt.Sprintf("multi-type clause #%d in %s", k, p.DeclName(fd))
+				bad := ""
+				for _, s := range cc.Body {
+					ast.Inspect(s, func(q ast.Node) bool {
+						b, ok := q.(*ast.BinaryExpr)
+						if !ok || (b.Op != token.EQL && b.Op != token.NEQ) {
+							return true
+						}
+						for _, pr := range [][2]ast.Expr{{b.X, b.Y}, {b.Y, b.X}} {
+							if identObj(info, pr[0]) == v {
+								if tv, ok := info.Types[pr[1]]; ok && tv.Value != nil {
+									bad = types.ExprString(b)
+								}
+							}
+						}
+						return true
+					})
+				}
+				r.Check(bad == "", key, cc.Pos(), "the interface-typed variable is not compared with a constant", "in a clause that lists several types `"+bad+"` compares an interface value with a constant: it is decided by the dynamic TYPE as much as by the value (int64(0) != 0 is true)")
+			}
+			return true
+		})
+	})
+	if n == 0 {
+		r.Ok("no multi-type clause binds an interface-typed switch variable", 0, "nothing to compare")
+	}
+}
+
+// ---------------------------------------------------------------------------------------------------
+// G56 a plugin hands its caller's context on
+
+func init() {
+	register("G56", "a plugin handler of rpc/plugins (a function with a context parameter and a `next` parameter) calls next on the context it was given, or on one derived from it (context.With*, core.WithContext with that context as parent) - and where it assigns its context parameter, the new value is derived from the old one. The context carries the caller's deadline and cancellation; a plugin that goes on with a context built on context.Background() (the oneway plugin 'because nobody waits') detaches everything behind it: a oneway call that waits for a limiter permit past its caller's deadline stays queued, takes a permit later and is sent", 10, ruleG56)
+}
+
+func ruleG56(r *Run) {
+	p := r.P
+	for _, pkg := range p.Pkgs {
+		if !strings.Contains(pkg.PkgPath, "/rpc/plugins/") {
+			continue
+		}
+		info := pkg.TypesInfo
+		for _, file := range pkg.Syntax {
+			for _, d := range file.Decls {
+				fd, ok := d.(*ast.FuncDecl)
+				if !ok || fd.Body == nil {
+					continue
+				}
+				var ctxP, nextP *types.Var
+				for _, pv := range paramsOf(info, fd.Type) {
+					if pv.Type().String() == "context.Context" && ctxP == nil {
+						ctxP = pv
+					}
+					if _, isSig := pv.Type().Underlying().(*types.Signature); isSig && pv.Name() == "next" {
+						nextP = pv
+					}
+				}
+				if ctxP == nil || nextP == nil {
+					continue
+				}
+				var derived func(e ast.Expr, depth int) bool
+				derived = func(e ast.Expr, depth int) bool {
+					e = ast.Unparen(e)
+					if depth > 5 {
+						return false
+					}
+					if c, ok := e.(*ast.CallExpr); ok && len(c.Args) >= 1 {
+						if f := Callee(info, c); f != nil && f.Pkg() != nil && strings.HasPrefix(f.Name(), "With") && (f.Pkg().Path() == "context" || strings.HasSuffix(f.Pkg().Path(), "/rpc/core")) {
+							return derived(c.Args[0], depth+1)
+						}
+						return false
+					}
+					o := identObj(info, e)
+					if o == nil {
+						return false
+					}
+					if o == types.Object(ctxP) {
+						return true
+					}
+					// a local: every definition derived
+					defs, all := 0, true
+					ast.Inspect(fd.Body, func(m ast.Node) bool {
+						if as, ok := m.(*ast.AssignStmt); ok {
+							for i, l := range as.Lhs {
+								if identObj(info, l) == o {
+									defs++
+									var rhs ast.Expr
+									if len(as.Rhs) == len(as.Lhs) {
+										rhs = as.Rhs[i]
+									} else if len(as.Rhs) == 1 {
+										rhs = as.Rhs[0] // ctx, cancel := context.WithTimeout(...)
+									}
+									if rhs == nil || !derived(rhs, depth+1) {
+										all = false
+									}
+								}
+							}
+						}
+						return true
+					})
+					return defs > 0 && all
+				}
+				key := "context handed on by " + p.DeclName(fd)
+				bad := ""
+				// (1) assignments to the parameter itself
+				ast.Inspect(fd.Body, func(m ast.Node) bool {
+					if as, ok := m.(*ast.AssignStmt); ok && as.Tok == token.ASSIGN {
+						for i, l := range as.Lhs {
+							if identObj(info, l) == types.Object(ctxP) {
+								var rhs ast.Expr
+								if len(as.Rhs) == len(as.Lhs) {
+									rhs = as.Rhs[i]
+								} else if len(as.Rhs) == 1 {
+									rhs = as.Rhs[0]
+								}
+								if rhs == nil || !derived(rhs, 0) {
+									bad = "the context parameter is replaced by `" + types.ExprString(as.Rhs[0]) + "` at " + p.Rel(as.Pos())
+								}
+							}
+						}
+					}
+					return true
+				})
+				// (2) what next is called with
+				nCalls := 0
+				ast.Inspect(fd.Body, func(m ast.Node) bool {
+					c, ok := m.(*ast.CallExpr)
+					if !ok || identObj(info, c.Fun) != types.Object(nextP) || len(c.Args) == 0 {
+						return true
+					}
+					nCalls++
+					// inside a literal with its own ctx parameter (go func(ctx context.Context) {...}(derived)) the argument of
+					// the literal's call is what counts
+					arg := c.Args[0]
+					if o := identObj(info, arg); o != nil && o != types.Object(ctxP) {
+						if v, ok := o.(*types.Var); ok && v.Type().String() == "context.Context" {
+							// a parameter of an enclosing function literal?
+							found := false
+							ast.Inspect(fd.Body, func(q ast.Node) bool {
+								ce, ok := q.(*ast.CallExpr)
+								if !ok {
+									return true
+								}
+								fl, ok := ast.Unparen(ce.Fun).(*ast.FuncLit)
+								if !ok {
+									return true
+								}
+								for i, pv := range paramsOf(info, fl.Type) {
+									if types.Object(pv) == o && i < len(ce.Args) {
+										found = true
+										if !derived(ce.Args[i], 0) {
+											bad = "next is called with `" + types.ExprString(ce.Args[i]) + "`"
+										}
+									}
+								}
+								return true
+							})
+							if found {
+								return true
+							}
+						}
+					}
+					if !derived(arg, 0) {
+						bad = "next is called with `" + types.ExprString(arg) + "`"
+					}
+					return true
+				})
+				if nCalls == 0 {
+					continue
+				}
+				r.Check(bad == "", key, fd.Pos(), "next runs on the handler's own context or one derived from it", bad+", which is not derived from the context the handler was given: the caller's deadline and cancellation do not reach what runs behind this plugin")
+			}
+		}
+	}
+}
+
+// ---------------------------------------------------------------------------------------------------
+// G57 the rpc context of a context.Context is narrowed with comma-ok
+
+func init() {
+	register("G57", "one context.Context can carry the rpc context of either side under the same key: a service method that calls another service through a client proxy hands on its own context, which holds a *ServiceContext. The accessors of rpc/core that narrow what FromContext returns to *ClientContext or *ServiceContext (and every other assertion on the result of FromContext in rpc/) use the comma-ok form or a type switch - a single-value assertion panics, and the nested call fails with `interface conversion: core.Context is *core.ServiceContext, not *core.ClientContext`", 2, ruleG57)
+}
+
+func ruleG57(r *Run) {
+	p := r.P
+	fc := p.LookupFunc("rpc/core", "FromContext")
+	if fc == nil {
+		r.Undec("rpc/core.FromContext", 0, "not found")
+		return
+	}
+	p.EachFunc(func(pkg *packages.Package, fd *ast.FuncDecl) {
+		if fd.Body == nil || !strings.Contains(pkg.PkgPath, "/rpc") {
+			return
+		}
+		info := pkg.TypesInfo
+		// locals that hold the result of FromContext
+		holders := map[types.Object]bool{}
+		ast.Inspect(fd.Body, func(m ast.Node) bool {
+			if as, ok := m.(*ast.AssignStmt); ok && len(as.Rhs) == 1 {
+				if c, ok := ast.Unparen(as.Rhs[0]).(*ast.CallExpr); ok && Callee(info, c) == fc && len(as.Lhs) >= 1 {
+					if o := identObj(info, as.Lhs[0]); o != nil {
+						holders[o] = true
+					}
+				}
+			}
+			return true
+		})
+		if len(holders) == 0 {
+			return
+		}
+		parents := parentMap(fd.Body)
+		k := 0
+		ast.Inspect(fd.Body, func(m ast.Node) bool {
+			ta, ok := m.(*ast.TypeAssertExpr)
+			if !ok || ta.Type == nil || !holders[identObj(info, ta.X)] {
+				return true
+			}
+			k++
+			key := fmt.Sprintf("rpc context narrowed in %s #%d", p.DeclName(fd), k)
+			commaOK := false
+			switch par := parents[ta].(type) {
+			case *ast.AssignStmt:
+				commaOK = len(par.Lhs) == 2 && len(par.Rhs) == 1
+			case *ast.ValueSpec:
+				commaOK = len(par.Names) == 2 && len(par.Values) == 1
+			}
+			r.Check(commaOK, key, ta.Pos(), "comma-ok", "`"+types.ExprString(ta)+"` is a single-value assertion on what FromContext returned: when the context carries the context of the other side it panics")
+			return true
+		})
+	})
+}
+
+// ---------------------------------------------------------------------------------------------------
+// U7 no converter means an error
+
+func init() {
+	register("U7", "GetConverter answers nil when a referenced value cannot be converted to the destination type; every function of package io that asks it and tests the answer for nil reports the nil case: the function has an else branch (or a tail behind the early return of the non-nil case) that assigns the decoder's Error, returns an error, or falls back on another conversion (io.Convert re-encodes). A caller that simply does nothing for nil (ptrConverter did) leaves the destination empty without an error - C06: a destination that cannot accept the value yields an error, not a wrong value", 3, ruleU7)
+}
+
+func ruleU7(r *Run) {
+	p := r.P
+	pkg := p.Pkg("io")
+	if pkg == nil {
+		r.Undec("package io", 0, "not found")
+		return
+	}
+	info := pkg.TypesInfo
+	gc := p.LookupFunc("io", "GetConverter")
+	errF := p.LookupField("io", "Decoder", "Error")
+	if gc == nil || errF == nil {
+		r.Undec("io.GetConverter / io.Decoder.Error", 0, "not found")
+		return
+	}
+	for _, file := range pkg.Syntax {
+		for _, d := range file.Decls {
+			fd, ok := d.(*ast.FuncDecl)
+			if !ok || fd.Body == nil {
+				continue
+			}
+			parents := parentMap(fd.Body)
+			k := 0
+			ast.Inspect(fd.Body, func(m ast.Node) bool {
+				c, ok := m.(*ast.CallExpr)
+				if !ok || Callee(info, c) != gc {
+					return true
+				}
+				// if conv := GetConverter(..); conv != nil { ... } [else ...]
+				var ifs *ast.IfStmt
+				for q := parents[c]; q != nil; q = parents[q] {
+					if x, ok := q.(*ast.IfStmt); ok && x.Init != nil && containsNode(x.Init, c) {
+						ifs = x
+						break
+					}
+					if _, ok := q.(ast.Stmt); ok {
+						if _, isAssign := q.(*ast.AssignStmt); !isAssign {
+							break
+						}
+					}
+				}
+				if ifs == nil {
+					// conv := GetConverter(..) as a statement of its own, tested by a later if
+					if as, ok := parents[c].(*ast.AssignStmt); ok && len(as.Lhs) == 1 {
+						if lo := identObj(info, as.Lhs[0]); lo != nil {
+							ast.Inspect(fd.Body, func(q ast.Node) bool {
+								if x, ok := q.(*ast.IfStmt); ok && ifs == nil && x.Pos() > as.Pos() {
+									if b, ok := ast.Unparen(x.Cond).(*ast.BinaryExpr); ok && (b.Op == token.NEQ || b.Op == token.EQL) && identObj(info, b.X) == lo {
+										if id, ok := ast.Unparen(b.Y).(*ast.Ident); ok && id.Name == "nil" {
+											ifs = x
+										}
+									}
+								}
+								return true
+							})
+						}
+					}
+				}
+				if ifs == nil {
+					return true // returned or stored: the caller of THIS function decides
+				}
+				k++
+				key := fmt.Sprintf("missing converter reported in %s #%d", p.DeclName(fd), k)
+				reports := func(n ast.Node) bool {
+					found := false
+					ast.Inspect(n, func(q ast.Node) bool {
+						switch x := q.(type) {
+						case *ast.AssignStmt:
+							for _, l := range x.Lhs {
+								if fieldOf(info, l) == errF {
+									found = true
+								}
+							}
+						case *ast.ReturnStmt:
+							for _, e := range x.Results {
+								if tv, ok := info.Types[e]; ok && tv.Type != nil && isErrorType(tv.Type) {
+									if id, ok := ast.Unparen(e).(*ast.Ident); !ok || id.Name != "nil" {
+										found = true
+									}
+								}
+							}
+						case *ast.CallExpr:
+							// a fall-back conversion: Marshal / Unmarshal / decodeError
+							switch methodName(x) {
+							case "Marshal", "Unmarshal", "decodeError", "decodeStringError":
+								found = true
+							}
+						}
+						return true
+					})
+					return found
+				}
+				good := false
+				if ifs.Else != nil && reports(ifs.Else) {
+					good = true
+				}
+				if !good {
+					// the tail of the enclosing block behind the if
+					if blk, ok := parents[ifs].(*ast.BlockStmt); ok {
+						after := false
+						for _, s := range blk.List {
+							if s == ast.Stmt(ifs) {
+								after = true
+								continue
+							}
+							if after && reports(s) {
+								good = true
+							}
+						}
+					}
+				}
+				r.Check(good, key, c.Pos(), "the nil answer leads to an error (or a fall-back conversion)", "when GetConverter answers nil the function does nothing: the destination keeps whatever it held (an empty value) and no error is reported - a reference that cannot be converted is accepted silently")
+				return true
+			})
+		}
+	}
+}
+
+// ---------------------------------------------------------------------------------------------------
+// G58 what the timeout plugin abandons, it cancels
+
+func init() {
+	register("G58", "the ExecuteTimeout plugin runs the downstream call on the SAME context whose expiry makes it give up: the context handed to next (inside the goroutine it starts) is the variable that context.WithTimeout assigned in that handler. If next runs on the handler's original context while the select waits on a separate timeout context, the plugin answers ErrTimeout but the abandoned call goes on, never told to stop: a push long poll abandoned this way stays parked in the broker and the next message accepted for that subscriber is handed to a request nobody waits for any more - accepted, reported as delivered, lost", 1, ruleG58)
+}
+
+func ruleG58(r *Run) {
+	p := r.P
+	pkg := p.Pkg("rpc/plugins/timeout")
+	if pkg == nil {
+		r.Undec("package rpc/plugins/timeout", 0, "not found")
+		return
+	}
+	info := pkg.TypesInfo
+	n := 0
+	for _, file := range pkg.Syntax {
+		for _, d := range file.Decls {
+			fd, ok := d.(*ast.FuncDecl)
+			if !ok || fd.Body == nil {
+				continue
+			}
+			var nextP *types.Var
+			for _, pv := range paramsOf(info, fd.Type) {
+				if _, isSig := pv.Type().Underlying().(*types.Signature); isSig && pv.Name() == "next" {
+					nextP = pv
+				}
+			}
+			if nextP == nil {
+				continue
+			}
+			// the context created with a deadline in this handler
+			var tctx types.Object
+			var wt *ast.CallExpr
+			ast.Inspect(fd.Body, func(m ast.Node) bool {
+				if as, ok := m.(*ast.AssignStmt); ok && len(as.Rhs) == 1 && len(as.Lhs) == 2 {
+					if c, ok := ast.Unparen(as.Rhs[0]).(*ast.CallExpr); ok {
+						switch FullNameOf(info, c) {
+						case "context.WithTimeout", "context.WithDeadline":
+							tctx = identObj(info, as.Lhs[0])
+							wt = c
+						}
+					}
+				}
+				return true
+			})
+			if tctx == nil {
+				continue
+			}
+			n++
+			key := "abandoned call cancelled in " + p.DeclName(fd)
+			bad := ""
+			ast.Inspect(fd.Body, func(m ast.Node) bool {
+				c, ok := m.(*ast.CallExpr)
+				if !ok || identObj(info, c.Fun) != types.Object(nextP) || len(c.Args) == 0 || c.Pos() < wt.Pos() {
+					return true
+				}
+				if identObj(info, c.Args[0]) != tctx {
+					bad = types.ExprString(c.Args[0])
+				}
+				return true
+			})
+			r.Check(bad == "", key, wt.Pos(), "next runs on the context that carries the plugin's deadline", "behind context.WithTimeout the downstream call is started on `"+bad+"`, not on the context that expires at the plugin's deadline ("+tctx.Name()+"): the plugin returns ErrTimeout and the call it abandoned runs on, uncancelled")
+		}
+	}
+	if n == 0 {
+		r.Undec("timeout plugin", 0, "no handler with context.WithTimeout and a call of next found")
 	}
 }
